@@ -481,7 +481,7 @@ size_t ZSTD_seekable_initAdvanced(ZSTD_seekable* zs, ZSTD_seekable_customFile sr
     return 0;
 }
 
-size_t ZSTD_seekable_decompress(ZSTD_seekable* zs, void* dst, size_t len, unsigned long long offset)
+static size_t ZSTD_seekable_decompress_internal(ZSTD_seekable* zs, void* dst, size_t len, unsigned long long offset)
 {
     unsigned long long const eos = zs->seekTable.entries[zs->seekTable.tableLen].dOffset;
     if (offset + len > eos) {
@@ -574,6 +574,17 @@ size_t ZSTD_seekable_decompress(ZSTD_seekable* zs, void* dst, size_t len, unsign
     } while (zs->decompressedOffset != offset + len);
 
     return len;
+}
+
+size_t ZSTD_seekable_decompress(ZSTD_seekable* zs, void* dst, size_t len, unsigned long long offset)
+{
+    size_t const result = ZSTD_seekable_decompress_internal(zs, dst, len, offset);
+    if (ZSTD_isError(result)) {
+        /* After a failed read (IO error, corruption) the file position, the input buffer
+         * and the decoder state are unreliable : make the next read start over. */
+        zs->curFrame = (U32)-1;
+    }
+    return result;
 }
 
 size_t ZSTD_seekable_decompressFrame(ZSTD_seekable* zs, void* dst, size_t dstSize, unsigned frameIndex)
